@@ -9,7 +9,9 @@
 #![allow(deprecated)]
 use concordium_base::{
     common::{from_bytes, to_bytes, Serial},
-    curve_arithmetic::{arkworks_instances::ArkGroup, Curve, Field, Value},
+    curve_arithmetic::{arkworks_instances::ArkGroup, Curve, Field, Pairing, Secret, Value},
+    id::constants::IpPairing,
+    ps_sig::{BlindedSignature, BlindingRandomness, PublicKey as PsPk, Signature as PsSig},
     elgamal::{Cipher, PublicKey as ElgPk, Randomness as ElgRand},
     pedersen_commitment::{Commitment, CommitmentKey, Randomness as PedRand},
     random_oracle::{RandomOracle, TranscriptProtocol, TranscriptProtocolV1},
@@ -18,6 +20,8 @@ use concordium_base::{
         com_enc_eq::{ComEncEq, ComEncEqSecret},
         com_eq::{ComEq, ComEqSecret},
         com_eq_different_groups::{ComEqDiffGroups, ComEqDiffGroupsSecret},
+        com_eq_sig::{ComEqSig, ComEqSigSecret},
+        ps_sig_known::{PsSigKnown, PsSigMsg, PsSigWitness, PsSigWitnessMsg},
         com_ineq::{prove_com_ineq, verify_com_ineq},
         com_lin::{ComLin, ComLinSecret},
         com_mult::{ComMult, ComMultSecret},
@@ -36,6 +40,8 @@ type C = ArkGroup<ark_bls12_381::G1Projective>;
 type S = <C as Curve>::Scalar;
 
 fn pt(a: &S) -> C { C::one_point().mul_by_scalar(a) }
+type G2 = <IpPairing as Pairing>::G2;
+fn pt2(a: &S) -> G2 { G2::one_point().mul_by_scalar(a) }
 fn sh(x: &S) -> String { hex(&to_bytes(x)) }
 fn s_of_hex(h: &str) -> S { from_bytes::<S, _>(&mut std::io::Cursor::new(unhex(h))).expect("scalar") }
 fn add(a: &S, b: &S) -> S { let mut x = *a; x.add_assign(b); x }
@@ -366,6 +372,76 @@ fn fam_enctrans(g: &mut Gen, n: usize) -> Fam<EncTrans<C>> {
         offs, expect_panic: false, attack: Some((full, mk_enc(n + 1, n))) }
 }
 
+fn mk_ces(n: usize, l: usize) -> Box<dyn Fn(&[S]) -> ComEqSig<IpPairing, C>> {
+    // layout: [a_hat, b_hat, cmts(n), pk.g, pk.g_tilda, ys(l), y_tildas(l), x_tilda, cmm_g, cmm_h]
+    Box::new(move |p| ComEqSig {
+        blinded_sig: BlindedSignature { sig: PsSig(pt(&p[0]), pt(&p[1])) },
+        commitments: p[2..2 + n].iter().map(cmm).collect(),
+        ps_pub_key: PsPk { g: pt(&p[2 + n]), g_tilda: pt2(&p[3 + n]), ys: p[4 + n..4 + n + l].iter().map(pt).collect(),
+            y_tildas: p[4 + n + l..4 + n + 2 * l].iter().map(pt2).collect(), x_tilda: pt2(&p[4 + n + 2 * l]) },
+        comm_key: CommitmentKey { g: pt(&p[5 + n + 2 * l]), h: pt(&p[6 + n + 2 * l]) } })
+}
+/// com_eq_sig with n committed values and a key for l = n + extra values
+fn fam_comeqsig(g: &mut Gen, n: usize, extra: usize) -> Fam<ComEqSig<IpPairing, C>> {
+    let l = n + extra;
+    let (a, gt, x, pkg, cg, ch) = (g.gen(), g.gen(), g.rnd(), g.gen(), g.gen(), g.gen());
+    let ysk: Vec<S> = (0..l).map(|_| g.rnd()).collect();
+    let ms: Vec<S> = (0..n).map(|_| g.w()).collect(); let rs: Vec<S> = (0..n).map(|_| g.w()).collect(); let rp = g.w();
+    let mut e = add(&x, &rp); for i in 0..n { e = add(&e, &mul(&ysk[i], &ms[i])); }
+    let mut pubs = vec![a, mul(&a, &e)];
+    for i in 0..n { pubs.push(add(&mul(&ms[i], &cg), &mul(&rs[i], &ch))); }
+    pubs.push(pkg); pubs.push(gt);
+    for i in 0..l { pubs.push(mul(&ysk[i], &pkg)); }
+    for i in 0..l { pubs.push(mul(&ysk[i], &gt)); }
+    pubs.push(mul(&x, &gt)); pubs.push(cg); pubs.push(ch);
+    let mut wit = vec![rp]; for i in 0..n { wit.push(ms[i]); wit.push(rs[i]); }
+    // truncated-response attack: one more commitment nobody can open (key long enough)
+    let full: Vec<S> = { let mut f = pubs[..2 + n].to_vec(); f.push(g.rnd()); f.extend_from_slice(&pubs[2 + n..]); f };
+    let mut offs = vec![0usize]; for i in 0..n { offs.push(36 + 64 * i); offs.push(68 + 64 * i); }
+    Fam { name: "com_eq_sig".into(), n, variant: g.var.name().into(), pubs, wit,
+        mk: mk_ces(n, l),
+        mkw: Box::new(move |w| ComEqSigSecret { blind_rand: BlindingRandomness(Secret::new(su(1)), Secret::new(w[0])),
+            values_and_rands: (0..n).map(|i| (val(&w[1 + 2 * i]), prand(&w[2 + 2 * i]))).collect() }),
+        offs, expect_panic: false, attack: if extra >= 1 { Some((full, mk_ces(n + 1, l))) } else { None } }
+}
+
+/// ps_sig_known with n messages of kinds i % 3 = 0: EqualToCommitment, 1: Public, 2: Known, key length l = n + extra.
+/// layout: [a_hat, b_hat, per message (commitment dlog | public value | nothing), pk.g, pk.g_tilda, ys(l), y_tildas(l), x_tilda, cmm_g, cmm_h]
+fn mk_pssig(n: usize, l: usize) -> Box<dyn Fn(&[S]) -> PsSigKnown<IpPairing, C>> {
+    Box::new(move |p| {
+        let mut msgs = vec![]; let mut j = 2;
+        for i in 0..n { match i % 3 { 0 => { msgs.push(PsSigMsg::EqualToCommitment(cmm(&p[j]))); j += 1; } 1 => { msgs.push(PsSigMsg::Public(val(&p[j]))); j += 1; } _ => msgs.push(PsSigMsg::Known) } }
+        PsSigKnown { blinded_sig: BlindedSignature { sig: PsSig(pt(&p[0]), pt(&p[1])) }, msgs,
+            ps_pub_key: PsPk { g: pt(&p[j]), g_tilda: pt2(&p[j + 1]), ys: p[j + 2..j + 2 + l].iter().map(pt).collect(),
+                y_tildas: p[j + 2 + l..j + 2 + 2 * l].iter().map(pt2).collect(), x_tilda: pt2(&p[j + 2 + 2 * l]) },
+            cmm_key: CommitmentKey { g: pt(&p[j + 3 + 2 * l]), h: pt(&p[j + 4 + 2 * l]) } } })
+}
+fn fam_pssig(g: &mut Gen, n: usize, extra: usize) -> Fam<PsSigKnown<IpPairing, C>> {
+    let l = n + extra;
+    let (a, gt, x, pkg, cg, ch) = (g.gen(), g.gen(), g.rnd(), g.gen(), g.gen(), g.gen());
+    let ysk: Vec<S> = (0..l).map(|_| g.rnd()).collect();
+    let ms: Vec<S> = (0..n).map(|_| g.w()).collect(); let rs: Vec<S> = (0..n).map(|_| g.w()).collect(); let rp = g.w();
+    let mut e = add(&x, &rp); for i in 0..n { e = add(&e, &mul(&ysk[i], &ms[i])); }
+    let mut pubs = vec![a, mul(&a, &e)];
+    for i in 0..n { match i % 3 { 0 => pubs.push(add(&mul(&ms[i], &cg), &mul(&rs[i], &ch))), 1 => pubs.push(ms[i]), _ => {} } }
+    let hdr = pubs.len();
+    pubs.push(pkg); pubs.push(gt);
+    for i in 0..l { pubs.push(mul(&ysk[i], &pkg)); }
+    for i in 0..l { pubs.push(mul(&ysk[i], &gt)); }
+    pubs.push(mul(&x, &gt)); pubs.push(cg); pubs.push(ch);
+    let mut wit = vec![rp]; for i in 0..n { wit.push(ms[i]); wit.push(rs[i]); }
+    // truncated-response attack: one more message (kind of index n) the prover knows nothing about
+    let full: Vec<S> = { let mut f = pubs[..hdr].to_vec(); if n % 3 != 2 { f.push(g.rnd()); } f.extend_from_slice(&pubs[hdr..]); f };
+    // response: r' (32), u32 count, then per message: tag byte + (2 | 0 | 1) scalars
+    let mut offs = vec![0usize]; let mut o = 36;
+    for i in 0..n { match i % 3 { 0 => { offs.push(o + 1); offs.push(o + 33); o += 65; } 1 => { o += 1; } _ => { offs.push(o + 1); o += 33; } } }
+    Fam { name: "ps_sig_known".into(), n, variant: g.var.name().into(), pubs, wit,
+        mk: mk_pssig(n, l),
+        mkw: Box::new(move |w| PsSigWitness { r_prime: Secret::new(w[0]),
+            msgs: (0..n).map(|i| match i % 3 { 0 => PsSigWitnessMsg::EqualToCommitment(val(&w[1 + 2 * i]), prand(&w[2 + 2 * i])), 1 => PsSigWitnessMsg::Public, _ => PsSigWitnessMsg::Known(val(&w[1 + 2 * i])) }).collect() }),
+        offs, expect_panic: false, attack: if extra >= 1 { Some((full, mk_pssig(n + 1, l))) } else { None } }
+}
+
 fn cases(seed: u64, budget: u64) {
     let mut r = Rng::new(seed);
     let vars = [Var::Random, Var::ZeroWitness, Var::EqualGens, Var::IdentityGen, Var::Small];
@@ -388,6 +464,9 @@ fn cases(seed: u64, budget: u64) {
                 run(fam_comlin(&mut g, n), &mut r, s);
                 run(fam_vcomeq(&mut g, n), &mut r, s);
                 run(fam_rep(&mut g, n), &mut r, s);
+                // boundary sizes: number of commitments == key length (extra 0), key length - 1 (extra 1), and a longer key
+                if n <= 2 { run(fam_comeqsig(&mut g, n, 0), &mut r, s); run(fam_comeqsig(&mut g, n, 1), &mut r, s); run(fam_pssig(&mut g, n, 0), &mut r, s); run(fam_pssig(&mut g, n + 2, 1), &mut r, s); }
+                else if round % 2 == 0 { run(fam_comeqsig(&mut g, 3, (vi % 2) * 2), &mut r, s); run(fam_pssig(&mut g, 6, vi % 2), &mut r, s); }
                 if n <= 2 || round % 2 == 0 { run(fam_enctrans(&mut g, if n == 17 { 4 } else { n }), &mut r, s); }
             }
         }
@@ -456,7 +535,14 @@ fn points() {
     for line in stdin.lock().lines() {
         let line = line.unwrap(); let h = line.trim();
         if h.is_empty() { continue; }
-        println!("{} {}", h, hex(&to_bytes(&pt(&s_of_hex(h)))));
+        let mut it = h.split_whitespace();
+        let (a, b) = (it.next().unwrap(), it.next());
+        match b {
+            None => println!("{} {}", a, hex(&to_bytes(&pt(&s_of_hex(a))))),
+            Some(x) if a == "g1" => println!("g1 {} {}", x, hex(&to_bytes(&pt(&s_of_hex(x))))),
+            Some(x) if a == "g2" => println!("g2 {} {}", x, hex(&to_bytes(&pt2(&s_of_hex(x))))),
+            Some(x) => println!("gt {} {}", x, hex(&to_bytes(&<IpPairing as Pairing>::pair(&pt(&s_of_hex(x)), &G2::one_point())))),
+        }
     }
 }
 
